@@ -245,6 +245,20 @@ fn case_strategy(max: usize) -> impl Strategy<Value = ListCase> {
         .prop_map(|(ds, codec, asyncw, (level, flag))| ListCase { ds, codec, asyncw, params: codec::Params { level, flag } })
 }
 
+/// very regular lists (consecutive ids, run 1, one length, contiguous offsets, a few irregular entries mixed
+/// in): they compress far below one byte per entry
+fn regular_strategy(max: usize) -> impl Strategy<Value = ListCase> {
+    (30usize..=max, 1u32..5000, 1u8..=4, any::<bool>(), any::<u64>(), 0usize..4).prop_map(|(n, len, codec, asyncw, seed, odd)| {
+        let mut r = crate::engine::Sm(seed);
+        let mut ds: Vec<EDelta> = (0..n).map(|_| EDelta { gap: 0, run: 1, len, omode: 0, off: 0 }).collect();
+        for _ in 0..odd {
+            let k = r.below(n as u64) as usize;
+            ds[k] = EDelta { gap: r.below(5), run: r.below(4) as u32, len: 1 + r.below(70_000) as u32, omode: [0u8, 1, 4][r.below(3) as usize], off: r.below(1 << 30) };
+        }
+        ListCase { ds, codec, asyncw, params: codec::Params { level: (seed % 10) as u8, flag: (seed >> 8) as u8 } }
+    })
+}
+
 /// big lists (cheap codecs only for the very big ones)
 fn big_strategy(max: usize) -> impl Strategy<Value = ListCase> {
     (max / 4..=max, any::<u64>(), prop_oneof![3 => Just(1u8), 2 => Just(2u8), 2 => Just(4u8)], any::<bool>()).prop_map(|(n, seed, codec, asyncw)| {
@@ -279,6 +293,7 @@ pub fn run(ctx: &Ctx) {
         crate::engine::Tier::Thorough => exhaustive(ctx, "exhaustive-3-entries-full", &FULL, 3, 512),
     }
     run_proptest(ctx, "random-lists", PtCfg::new(ctx.lanes, ctx.tier.pick(400, 8000)), || case_strategy(ctx.tier.pick(400, 3000)), check_case);
+    run_proptest(ctx, "regular-compressible-lists", PtCfg::new(ctx.lanes, ctx.tier.pick(60, 1500)), || regular_strategy(ctx.tier.pick(3000, 30_000)), check_case);
     run_proptest(ctx, "random-big-lists", PtCfg { lanes: ctx.lanes, cases: ctx.tier.pick(2, 12), max_shrink: 64 }, || big_strategy(ctx.tier.pick(40_000, 100_000)), check_case);
     for c in ["offset-elided", "offset-explicit-after-0", "offset-zero-after-0", "leaf-pointer", "varint>=5bytes", "codec-brotli", "codec-gzip", "codec-zstd", "writer-async"] {
         ctx.rec.floor(c, 20);
@@ -298,7 +313,7 @@ pub fn replay(sub: &str, case: &Value) -> Option<CaseResult> {
         })());
     }
     match sub {
-        "random-lists" | "random-big-lists" => Some(check_case(&super::de(case)?)),
+        "random-lists" | "random-big-lists" | "regular-compressible-lists" => Some(check_case(&super::de(case)?)),
         _ => None,
     }
 }
